@@ -162,7 +162,7 @@ func c13Enum(thorough bool) mc.Enum {
 					for i, rs := range triples {
 						jobs = append(jobs, job{rs, 0})
 						if i%16 == 0 { // the same run across the heights 9 -> 10 -> 11 and 99 -> 100 -> 101
-							jobs = append(jobs, job{rs, 8}, job{rs, 98})
+							jobs = append(jobs, job{rs, 8}, job{rs, 98}, job{rs, 14397}) // ... and the day boundary 14400 (6-second blocks)
 						}
 					}
 					for _, j := range jobs {
@@ -237,7 +237,7 @@ func init() {
 	CaseReplayers["C13/emission"] = func(r *mc.Run, c string) { r.ReplayCase(c13Enum(true), c) }
 	CaseReplayers["C13/whole-app"] = func(r *mc.Run, c string) { c13WholeApp(r) }
 	Props["C13"] = Prop{Level: "exploration", Run: func(r *mc.Run, tier string) {
-		r.Rules = append(r.Rules, "full product TokensPerBlock {0,1,2,3,5,10,100,4.2M} x MintDecrease {0,6,bpy/2,bpy,bpy+1,2bpy,2^63-bpy,2^63-1} x every ratio triple over {0,8,12,33,34,50,80,100} with sum<=100 x seeded previous emission {none,0,1,2,3,10} x 6 consecutive blocks (thorough: more values, 12 blocks), every 16th ratio triple also started at heights 8 and 98 (the run crosses 9->10->11 and 99->100->101) through the real jklmint.BeginBlocker on the real bank keeper; one evaluation = one (parameter set, seed) run; non-trivial = emission > 0 in some block")
+		r.Rules = append(r.Rules, "full product TokensPerBlock {0,1,2,3,5,10,100,4.2M} x MintDecrease {0,6,bpy/2,bpy,bpy+1,2bpy,2^63-bpy,2^63-1} x every ratio triple over {0,8,12,33,34,50,80,100} with sum<=100 x seeded previous emission {none,0,1,2,3,10} x 6 consecutive blocks (thorough: more values, 12 blocks), every 16th ratio triple also started at heights 8, 98 and 14397 (the run crosses 9->10->11, 99->100->101 and the day boundary 14400) through the real jklmint.BeginBlocker on the real bank keeper; one evaluation = one (parameter set, seed) run; non-trivial = emission > 0 in some block")
 		r.Assumptions = append(r.Assumptions, "module seam for the per-account split (in the whole app the distribution module sweeps the fee collector in the same BeginBlock); whole-app blocks at the ABCI seam check supply growth only", "blocks per year 5,256,000")
 		r.AddEnum(c13Enum(tier == "thorough"), workers(), time.Time{})
 		c13WholeApp(r)
